@@ -293,7 +293,7 @@ func goLayout(p *Program) layoutTable {
 	fs := fT.Underlying().(*types.Struct)
 	var ff []string
 	for i := 0; i < fs.NumFields(); i++ {
-		ff = append(ff, normOffsetName(fs.Field(i).Name()))
+		ff = append(ff, normOffsetName(fname(fs.Field(i))))
 	}
 	t["footer.fields"] = strings.Join(ff, ",")
 	// who serialises what
